@@ -235,3 +235,119 @@ def doc_wire(d):
     if d[0] == "a":
         return " ".join(["a %d" % len(d[1])] + [doc_wire(x) for x in d[1]])
     return d[0]
+
+
+# ---------------- schemas with rules (C04, C15, C16, C13) ----------------
+FORMAT_EX = {"email": ('"a@b.cc"', '"not an email"'), "uri": ('"http://a.b/c"', '"no scheme"'),
+             "uuid": ('"550e8400-e29b-41d4-a716-446655440000"', '"550e8400-e29b-41d4-a716"'),
+             "date": ('"2020-02-29"', '"2021-02-29"'), "datetime": ('"2020-01-01T00:00:00Z"', '"2020-01-01 00:00"')}
+
+
+def rand_rule_scalar(rng):
+    """W scalar with a rule set its example obeys; w.viol = list of (rule name, violating example token)"""
+    kind = rng.choice("SIFB")
+    rules, viol = [], []
+    if kind == "I":
+        n = rng.randint(-50, 50)
+        tok = str(n)
+        if rng.random() < 0.6:
+            lo = n - rng.randint(0, 5)
+            rules.append(("min", str(lo)))
+            viol.append(("min", str(lo - 1)))
+            if lo < n and rng.random() < 0.4:
+                rules.append(("exclusiveMinimum", "true"))
+                viol.append(("exclusiveMinimum", str(lo)))
+        if rng.random() < 0.6:
+            hi = n + rng.randint(0, 5)
+            rules.append(("max", str(hi)))
+            viol.append(("max", str(hi + 1)))
+        if not rules and rng.random() < 0.5:
+            rules.append(("enum", "[%d, %d, \"x\"]" % (n, n + 1)))
+            viol.append(("enum", str(n + 7)))
+    elif kind == "F":
+        d = rng.randint(1, 3)
+        tok = "%d.%s" % (rng.randint(-9, 9), "".join(rng.choice("123456789") for _ in range(d)))
+        if rng.random() < 0.5:
+            rules += [("type", '"decimal"'), ("precision", str(d + rng.randint(0, 2)))]
+            p = int(rules[-1][1])
+            viol.append(("precision", tok + "1" * (p - d + 1)))
+        if rng.random() < 0.5:
+            lo = int(float(tok)) - 2
+            rules.append(("min", str(lo)))
+            viol.append(("min", "%d.5" % (lo - 3)))
+    elif kind == "S":
+        r = rng.random()
+        if r < 0.3:
+            f = rng.choice(list(FORMAT_EX))
+            tok = FORMAT_EX[f][0]
+            rules.append(("type", '"%s"' % f))
+            viol.append(("type", FORMAT_EX[f][1]))
+        else:
+            body = "".join(rng.choice("abcxyz") for _ in range(rng.randint(1, 6)))
+            tok = '"%s"' % body
+            if rng.random() < 0.5:
+                rules.append(("minLength", str(len(body) - rng.randint(0, 1))))
+                m = int(rules[-1][1])
+                if m > 0:
+                    viol.append(("minLength", '"%s"' % body[:m - 1]))
+            if rng.random() < 0.5:
+                rules.append(("maxLength", str(len(body) + rng.randint(0, 2))))
+                viol.append(("maxLength", '"%s"' % (body + "q" * 3)))
+            if rng.random() < 0.3:
+                rules.append(("regex", '"^[a-z]+$"'))
+                viol.append(("regex", '"%s9"' % body))
+            if not rules and rng.random() < 0.5:
+                rules.append(("enum", '["%s", "other", 1]' % body))
+                viol.append(("enum", '"%sQ"' % body))
+    else:
+        tok = rng.choice(["true", "false"])
+        if rng.random() < 0.3:
+            rules.append(("enum", "[true, false]"))
+    w = W(kind, tok=tok, rules=rules, nullable=(rng.random() < 0.15 and not any(r[0] in ("enum",) for r in rules)))
+    if rng.random() < 0.15 and kind in "SI" and not any(r[0] in ("type", "enum") for r in rules):
+        w.rules.append(("type", '"%s"' % {"S": "string", "I": "integer"}[kind]))
+        viol.append(("type", {"S": "12", "I": '"s"'}[kind]))
+    w.viol = viol
+    return w
+
+
+def rand_rule_schema(rng, depth):
+    r = rng.random()
+    if depth <= 0 or r < 0.35:
+        return rand_rule_scalar(rng)
+    if r < 0.7:
+        n = rng.choice([1, 2, 2, 3, 4])
+        keys = rng.sample(KEYS[:6], n)
+        w = W("O", members=[(k, rng.choice([None, None, True]), rand_rule_schema(rng, depth - 1)) for k in keys])
+        w.viol = []
+        return w
+    n = rng.choice([1, 1, 2, 3])
+    w = W("A", items=[rand_rule_schema(rng, depth - 1) for _ in range(n)])
+    w.viol = []
+    if rng.random() < 0.4:
+        w.rules.append(("minItems", str(n - rng.randint(0, 1))))
+        if int(w.rules[-1][1]) > 0:
+            w.viol.append(("minItems", None))
+    if rng.random() < 0.4:
+        w.rules.append(("maxItems", str(n + rng.randint(0, 2))))
+        w.viol.append(("maxItems", None))
+    return w
+
+
+def all_nodes(w, acc=None):
+    acc = [] if acc is None else acc
+    acc.append(w)
+    for _, _, x in w.members:
+        all_nodes(x, acc)
+    for x in w.items:
+        all_nodes(x, acc)
+    return acc
+
+
+def plain_json(w, compact=True):
+    """the example with annotations removed"""
+    if w.kind in "SIFBN":
+        return w.tok
+    if w.kind == "O":
+        return "{" + ",".join(json.dumps(k, ensure_ascii=False) + ":" + plain_json(x) for k, _, x in w.members) + "}"
+    return "[" + ",".join(plain_json(x) for x in w.items) + "]"
